@@ -13,6 +13,36 @@ def termsOfJson (j : Json) : R (List (Rat × List Nat)) :=
     let e ← nats t "e"
     pure (c, e)) j
 
+/-- a leaf of a dictionary norm: number, array (shape of the subregion's mesh, or last axis 1), polynomial callable -/
+def dleafOfJson (j : Json) : R (C02.Leaf Rat) := do
+  let k ← strOfJson (← fld j "k")
+  match k with
+  | "const" => do pure (.scalar (← ratOfJson (← fld j "v")))
+  | "arr" => do pure (.arr (← ndaOfJson ratOfJson 0 j))
+  | "poly" => do
+      let ts ← termsOfJson (← fld j "terms")
+      pure (.func fun p => [polyEval ts p])
+  | _ => throw s!"unknown dict leaf kind {k}"
+
+/-- `{"k": "dict", "items": [[name, leaf], …], "default": leaf | null}` -/
+def dictOfJson (j : Json) : R (C02.Spec Rat) := do
+  let items ← listOf (fun e => do
+    let a ← arr e
+    match a.toList with
+    | [n, l] => do pure (← strOfJson n, ← dleafOfJson l)
+    | _ => throw "dict item must be [name, leaf]") (← fld j "items")
+  let dflt ← match fldOpt j "default" with
+    | none => pure none
+    | some d => do
+      let k ← strOfJson (← fld d "k")
+      match k with
+      | "const" => do pure (some (C02.Dflt.val (NDA.const [] (← ratOfJson (← fld d "v")))))
+      | "poly" => do
+          let ts ← termsOfJson (← fld d "terms")
+          pure (some (C02.Dflt.func fun p => [polyEval ts p]))
+      | _ => throw s!"unknown dict default kind {k}"
+  pure (.dict items dflt)
+
 def nspecOfJson (j : Json) : R NSpec := do
   let k ← strOfJson (← fld j "k")
   match k with
@@ -22,6 +52,7 @@ def nspecOfJson (j : Json) : R NSpec := do
       let ts ← termsOfJson (← fld j "terms")
       pure (.fn (polyEval ts))
   | "field" => do pure (.field (← fldOfJson (← fld j "field")))
+  | "dict" => do pure (.spec (← dictOfJson j))
   | _ => throw s!"unknown norm spec kind {k}"
 
 def optNspec (j : Json) (k : String) : R (Option NSpec) :=
@@ -56,7 +87,16 @@ def forceF (f : Fld) : Fld :=
 /-- a field together with the norm and orientation the model derives from it -/
 def snapJ (atol : Rat) (f : Fld) : Json :=
   Json.mkObj [("field", fldToJson f), ("norm", fldToJson (norm sqrtQ f)),
-    ("orientation", fldToJson (orientation sqrtQ atol f))]
+    -- the getter as the code writes it: a constructor call with the receiver's labels and mapping
+    ("orientation", match orientation? sqrtQ atol f with
+      | .ok o => fldToJson (forceF o)
+      | .error e => errJ e)]
+
+/-- `vdim_mapping=` of the constructor: absent / null = `None`, else `[[label, axis], …]` -/
+def optPairs (j : Json) (k : String) : R (Option (List (String × String))) :=
+  match fldOpt j k with
+  | none => pure none
+  | some _ => some <$> pairsOfJson j k
 
 def stepOfJson (j : Json) : R Step := do
   let k ← strOfJson (← fld j "k")
@@ -68,6 +108,11 @@ def stepOfJson (j : Json) : R Step := do
 
 def stepOf (atol : Rat) (f : Fld) (j : Json) : R (M Fld) := do
   pure (step sqrtQ atol f (← stepOfJson j))
+
+/-- `[re_0, im_0, re_1, im_1, …]` as complex components (inverse of `flattenC`) -/
+def pairsOf : List Rat → List (Rat × Rat)
+  | x :: y :: rest => (x, y) :: pairsOf rest
+  | _ => []
 
 /-- run the steps; the list ends at the first step that raises -/
 def runSteps (atol : Rat) : Fld → List Json → R (List Json)
@@ -104,6 +149,19 @@ def c15 (op : String) (j : Json) : Option (R Json) :=
           ("set", ratsJ (flSetCell fl64 sqrt64 v t)),
           ("orient", ratsJ (flOrientCell fl64 sqrt64 atol v))]
       pure (Json.mkObj [("ok", Json.arr out.toArray)])
+  | "cfl_cells" => some do
+      -- the complex kernel as NumPy computes it (|z|^2 with / without a fused multiply-add, division through the
+      -- rounded reciprocal), one binary64 rounding after every operation; cells and results in the (re, im) view
+      let cells ← listOf (listOf ratOfJson) (← fld j "cells")
+      let targets ← rats j "targets"
+      let atol ← ratOfJson (← fld j "atol")
+      let one := fun (fused : Bool) (v : List (Rat × Rat)) (t : Rat) =>
+        Json.mkObj [("norm", ratToJson (cflNormCell fl64 sqrt64 fused v)),
+          ("set", ratsJ (flattenC (cflSetCell fl64 sqrt64 fused v t))),
+          ("orient", ratsJ (flattenC (cflOrientCell fl64 sqrt64 fused atol v)))]
+      let out := (cells.zip targets).map fun (v, t) =>
+        Json.mkObj [("fused", one true (pairsOf v) t), ("plain", one false (pairsOf v) t)]
+      pure (Json.mkObj [("ok", Json.arr out.toArray)])
   | "field_prog" => some do
       -- start from a stored field (taken as state), run steps
       let f ← fldOfJson (← fld j "field")
@@ -112,16 +170,18 @@ def c15 (op : String) (j : Json) : Option (R Json) :=
       let out ← runSteps atol f steps.toList
       pure (Json.mkObj [("ok", Json.mkObj [("init", snapJ atol f), ("steps", Json.arr out.toArray)])])
   | "ctor_prog" => some do
-      -- Field(mesh, nvdim, value, norm, valid, unit), then steps
+      -- Field(mesh, nvdim, value, norm, valid, vdims, vdim_mapping, unit), then steps
       let mesh ← meshOfJson (← fld j "mesh")
       let nvdim ← natOfJson (← fld j "nvdim")
       let value ← vspecOfJson (← fld j "value")
       let nrm ← optNspec j "norm"
       let valid ← validOfJson (← fld j "valid")
       let unit ← optStrOfJson j "unit"
+      let vdims ← optStrsOfJson j "vdims"
+      let vmap ← optPairs j "vmap"
       let atol ← ratOfJson (← fld j "atol")
       let steps ← arr (← fld j "steps")
-      match mk? sqrtQ atol mesh nvdim value nrm valid unit with
+      match mkFull? sqrtQ atol mesh nvdim value nrm valid vdims vmap unit with
       | .error e => pure (errJ e)
       | .ok f =>
         let f := forceF f
